@@ -18,7 +18,7 @@ EXPLANATION = (
     "write/read classifier (worder get_assignment_type) is guarded by a membership/equality test of that very value "
     "against a constant collection that folds to a subset of the interpreter's assignment operators "
     "(token.EXACT_TOKEN_TYPES ending in '=' minus comparisons).  R04.3 (=R06.1): the definition parser pairs default "
-    "values with exactly posonlyargs + args.  R04.4 (=R07.11): the import merger decides 'already imported' on (name, alias) pairs.  R04.5: the from-import of the inlined name is stripped only under the caller's `remove` flag.  The text of the inlined code is not decided."
+    "values with exactly posonlyargs + args.  R04.4 (=R07.11): the import merger decides 'already imported' on (name, alias) pairs.  R04.5: the from-import of the inlined name is stripped only under the caller's `remove` flag.  R04.6: the offsets that cut the inlined assignment out come from a line table of the substituted text.  The text of the inlined code is not decided."
 )
 ASSUMPTIONS = ["alias tracking is flow-insensitive (x = self.attr makes x an alias for the whole method)",
                "dict()/list()/set()/.copy()/sorted()/slicing create copies"]
@@ -176,3 +176,44 @@ def check(ctx, res) -> None:
                     f"{f.name} strips the from-import of the inlined name without looking at the `remove` flag: with remove=False (only_current) the other "
                     "uses of the name in that module stay, but their import is gone (NameError)", function=f.qualname)
     res.floor("R04.5", "import-stripping calls in inline", n5, 2)
+
+    # ---- R04.6 offsets belong to the text they cut.  _inline_variable first substitutes the value for every read (the text
+    # changes length wherever a read precedes the assignment), then cuts the assignment out of the NEW text: the line table
+    # whose get_line_start / get_line_end give the cut offsets must be built from that new text, not taken from the module
+    iv = idx.need_func("rope.refactor.inline._inline_variable")
+    fam = common.with_private_helpers(idx, iv)
+    new_texts = {t.id for x in walk_local(iv.node) if isinstance(x, ast.Assign) and isinstance(x.value, ast.Call)
+                 and call_name(x.value) == "rename_in_module" for t in x.targets if isinstance(t, ast.Name)}
+    if not new_texts:
+        raise AnalysisError("anchor=_inline_variable: the text returned by rename_in_module not found")
+    sliced = {x.value.id for g in fam for x in walk_local(g.node) if isinstance(x, ast.Subscript) and isinstance(x.slice, ast.Slice)
+              and isinstance(x.value, ast.Name)}
+    n6 = 0
+    # only lookups whose result can reach a bound of a slice of the new text: those written in _inline_variable itself, and
+    # those in a helper whose result is assigned to a name used in such a bound
+    bound_names = {y.id for x in walk_local(iv.node) if isinstance(x, ast.Subscript) and isinstance(x.slice, ast.Slice)
+                   and isinstance(x.value, ast.Name) and x.value.id in new_texts
+                   for b in (x.slice.lower, x.slice.upper) if b is not None for y in ast.walk(b) if isinstance(y, ast.Name)}
+    feeding = {call_name(x.value) for x in walk_local(iv.node) if isinstance(x, ast.Assign) and isinstance(x.value, ast.Call)
+               and any(isinstance(y, ast.Name) and y.id in bound_names for t in x.targets for y in ast.walk(t))}
+    if sliced & new_texts:
+        for g in fam:
+            if g is not iv and g.name not in feeding:
+                continue
+            for c in calls_in(g.node):
+                if not (isinstance(c.func, ast.Attribute) and c.func.attr in ("get_line_start", "get_line_end")):
+                    continue
+                n6 += 1
+                recv = c.func.value
+                src = recv
+                if isinstance(recv, ast.Name):
+                    defs = [x.value for x in walk_local(g.node) if isinstance(x, ast.Assign) and any(isinstance(t, ast.Name) and t.id == recv.id for t in x.targets)]
+                    src = defs[0] if len(defs) == 1 else None
+                ok = isinstance(src, ast.Call) and any(isinstance(a, ast.Name) and (a.id in new_texts or g is not iv) for a in src.args) \
+                    and not any(isinstance(a, ast.Attribute) for a in src.args)
+                res.add("R04.6", f"{g.name}|cut-offsets#{n6}", ok, f"{g.unit.rel}:{c.lineno}",
+                        "the offsets that cut the assignment out come from a line table of the substituted text" if ok else
+                        f"`{ast.unparse(c)}` takes the cut offsets from `{ast.unparse(src) if src is not None else ast.unparse(recv)}`, a line table of the ORIGINAL module, and applies "
+                        "them to the text in which the reads have already been replaced: when a read of the variable stands before its assignment the "
+                        "text has shifted, part of the definition is left behind and neighbouring code is cut away", function=g.qualname)
+    res.floor("R04.6", "line-table lookups feeding the cut in _inline_variable", n6, 2)
